@@ -9,6 +9,7 @@ type vCipher struct {
 	encFail  []bool   // k-th Encrypt call fails
 	decN     []uint64 // nonces seen by DecryptDanger
 	encN     []uint64 // nonces seen by EncryptDanger
+	hook     func()   // runs inside DecryptDanger: models what another goroutine does while this one is outside its critical sections
 }
 
 var errVCipher = errors.New("vCipher: authentication failed")
@@ -25,6 +26,9 @@ func (c *vCipher) EncryptDanger(out, ad, plaintext []byte, n uint64, nb []byte) 
 func (c *vCipher) DecryptDanger(out, ad, ciphertext []byte, n uint64, nb []byte) ([]byte, error) {
 	k := len(c.decN)
 	c.decN = append(c.decN, n)
+	if c.hook != nil {
+		c.hook()
+	}
 	if k < len(c.okScript) && c.okScript[k] {
 		return out, nil
 	}
